@@ -80,3 +80,9 @@ Example C12_starts_plainly_nonvacuous :
   (let e := [60;47;97;58;49;44;62;98]%N in
    exists t r, build e = BuildOk t r /\ starts_plainly t = true /\ has_root t = Always).
 Proof. cbv zeta. split; do 2 eexists; repeat split; vm_compute; reflexivity. Qed.
+
+(* the complement is not empty: {</a:1,>,c} builds and is sometimes rooted (known class nested_rooting) *)
+Example C12_a_repetition_at_the_beginning_of_a_branch_may_be_sometimes_rooted :
+  let e := [123;60;47;97;58;49;44;62;44;99;125]%N in
+  exists t r, build e = BuildOk t r /\ starts_plainly t = false /\ has_root t = Sometimes.
+Proof. cbv zeta. do 2 eexists. repeat split; vm_compute; reflexivity. Qed.
